@@ -116,7 +116,7 @@ func supervise(prop, tier string, replayScenario map[string]interface{}) int {
 			cmd.Stderr = lf
 			cmd.Env = append(os.Environ(), "GOTRACEBACK=all", "VERIF_DIR="+dir)
 			if r.Race {
-				cmd.Env = append(cmd.Env, "GORACE=halt_on_error=0 log_path="+base+".race")
+				cmd.Env = append(cmd.Env, "GORACE=halt_on_error=0 exitcode=0 log_path="+base+".race")
 				matches, _ := filepath.Glob(base + ".race.*")
 				for _, m := range matches {
 					_ = os.Remove(m)
